@@ -750,14 +750,23 @@ Theorem simulator_evolve_cache_old_code :
     = Some (1%nat, 1%nat, false).
 Proof. repeat split; reflexivity. Qed.
 
-(* before bc7ab4f9 Simulator.probs(BasicState) evolved under the mask a previous probs_svd left in the engine *)
+(* before bc7ab4f9 / 7e0f70ac the unconditioned queries ran under the mask a previous probs_svd left in the engine *)
 Theorem simulator_probs_old_code :
-  snd (simm_step false (simm_run false [SmHeralds 1; SmProbsSvd 1 true]) SmProbs) = Some (Some (1%nat, 1%nat)) /\
-  snd (simm_step false (simm_run false [SmHeralds 1]) SmProbs) = Some None.
-Proof. split; reflexivity. Qed.
-(* now: whatever the history, the evolution of probs(BasicState) is computed without a mask *)
-Theorem simulator_probs_unmasked h : snd (simm_step true (simm_run true h) SmProbs) = Some None.
-Proof. reflexivity. Qed.
+  snd (simm_step false false (simm_run false false [SmHeralds 1; SmProbsSvd 1 true]) (SmQuery SqProbs)) = Some (Some (1%nat, 1%nat)) /\
+  snd (simm_step true false (simm_run true false [SmHeralds 1; SmProbsSvd 2 true]) (SmQuery SqProbability)) = Some (Some (1%nat, 2%nat)) /\
+  snd (simm_step true false (simm_run true false [SmHeralds 1; SmProbsSvd 2 true]) (SmQuery SqProbAmplitude)) = Some (Some (1%nat, 2%nat)) /\
+  snd (simm_step false false (simm_run false false [SmHeralds 1]) (SmQuery SqProbs)) = Some None.
+Proof. repeat split; reflexivity. Qed.
+(* now: whatever the history, every query is computed under the mask its own configuration determines: none for
+   probs(BasicState), probability and prob_amplitude; the one use_mask decides for evolve *)
+Theorem simulator_queries_unmasked h q :
+  snd (simm_step true true (simm_run true true h) (SmQuery q)) = Some (simm_fresh (simm_run true true h) q).
+Proof. destruct q; reflexivity. Qed.
+Corollary simulator_unconditioned_unmasked h :
+  snd (simm_step true true (simm_run true true h) (SmQuery SqProbs)) = Some None /\
+  snd (simm_step true true (simm_run true true h) (SmQuery SqProbability)) = Some None /\
+  snd (simm_step true true (simm_run true true h) (SmQuery SqProbAmplitude)) = Some None.
+Proof. repeat split; reflexivity. Qed.
 
 (* =============================== MPS bond dimension =============================== *)
 Theorem mps_refuted :
